@@ -3,3 +3,6 @@
 # without it (exhaustive:false); the broken purego build itself is reported by C20.
 rm -f build/vcheck-purego
 build vcheck-purego "verif purego" || echo "pre-C06: purego variant does not build; C06 runs without it"
+# race-detector build of the portable variant (re-entrancy pass of the purego code's own statics)
+rm -f build/vcheck-purego-race
+build vcheck-purego-race "verif purego" -race || echo "purego race variant does not build"
